@@ -350,6 +350,14 @@ struct ChildRun {
     next: u64,
 }
 
+/// The environment a child sees is part of the simulated machine. Besides the usual
+/// variables it contains one whose value is not valid Unicode (a legacy-locale leftover):
+/// the program has no say in that, and `env` / `$ENV` must still answer.
+fn hostile_env_value() -> std::ffi::OsString {
+    use std::os::unix::ffi::OsStringExt;
+    std::ffi::OsString::from_vec(b"caf\xe9 \xff\xfe".to_vec())
+}
+
 fn spawn_child(args: &[String]) -> std::io::Result<std::process::Child> {
     let exe = std::env::current_exe()?;
     Command::new(exe)
@@ -358,6 +366,7 @@ fn spawn_child(args: &[String]) -> std::io::Result<std::process::Child> {
         .env("PATH", "/usr/bin:/bin")
         .env("HOME", "/nonexistent")
         .env("TZ", "UTC")
+        .env("LEGACY_NAME", hostile_env_value())
         .env("VERIF_ROOT", verif_root())
         .stdin(Stdio::null())
         .stdout(Stdio::piped())
@@ -481,12 +490,22 @@ fn bracket_depth(text: &str) -> usize {
 }
 
 /// Could this trial have built a value nested 200+ levels deep? True for a deep input, a
-/// deeply bracketed program, or an explicit `range(N)` with N >= 200 (the canonical
+/// deeply bracketed program, text repeated 200+ times (`"[" * 385 | fromjson`), or an
+/// explicit `range(N)` with N >= 200 (the canonical
 /// `reduce range(400) as $i (null; [.])`). Used to scope the nesting-depth known finding:
 /// the same panic on shallow data is NOT the known finding.
 fn deep_data(program: &str, input: &str) -> bool {
     if bracket_depth(input) >= 200 || bracket_depth(program) >= 200 {
         return true;
+    }
+    // text built by repetition: `("[" * 385) | fromjson`
+    let mut rest = program;
+    while let Some(p) = rest.find("* ") {
+        rest = &rest[p + 2..];
+        let digits: String = rest.chars().take_while(char::is_ascii_digit).collect();
+        if digits.parse::<u64>().map_or(false, |n| n >= 200) {
+            return true;
+        }
     }
     let mut rest = program;
     while let Some(p) = rest.find("range(") {
@@ -633,6 +652,7 @@ fn run_case_cli(case: &Case) -> (Outcome, Option<Failure>) {
         .env("PATH", "/usr/bin:/bin")
         .env("HOME", "/nonexistent")
         .env("TZ", "UTC")
+        .env("LEGACY_NAME", hostile_env_value())
         .stdin(Stdio::piped())
         .stdout(Stdio::null())
         .stderr(Stdio::piped());
